@@ -44,6 +44,8 @@ Fixpoint set_nth {A} (n : nat) (x : A) (l : list A) : list A :=
   | y :: r, S n' => y :: set_nth n' x r
   end.
 
+Definition olist {A} (o : option A) : list A := match o with Some x => [x] | None => [] end.
+
 Section Lts.
   Variable M : Type.
   Variable m_eqb : M -> M -> bool.
@@ -314,6 +316,16 @@ Section Lts.
          (st_pendv s) (st_pendc s) (st_overlap s) (st_reordered s)
          (st_cntv s) (st_leftv s) (st_cntc s) (st_leftc s) (st_tkt s) (st_logv s) (st_logc s).
 
+  (* what a step does to the publication pipeline, read off its pcs and its effect *)
+  Definition is_pv (p : pc) : bool := match p with PSavedV _ _ => true | _ => false end.
+  Definition is_pc (p : pc) : bool := match p with PSavedC _ _ => true | _ => false end.
+  Definition saved_v (p' : pc) : option vevent := match p' with PSavedV _ e => Some e | _ => None end.
+  Definition saved_c (p' : pc) : option cevent := match p' with PSavedC _ e => Some e | _ => None end.
+  (* a Delete commits and publishes in one step *)
+  Definition del_ev (p : pc) (eff : effect) : option cevent :=
+    match p, eff with PDel _ _, EPubC e => Some e | _, _ => None end.
+  Definition is_some {A} (o : option A) : bool := match o with Some _ => true | None => false end.
+
   Definition step (t : nat) (s : state) : state :=
     match nth_error prog t, nth_error (st_pcs s) t with
     | Some c, Some p =>
@@ -324,23 +336,19 @@ Section Lts.
                         | None, Some r => st_wit s ++ [(t, r, st_k s)]
                         | _, _ => st_wit s
                         end in
-            let del_commit := match p, eff with PDel _ _, EPubC _ => true | _, _ => false end in
-            let pendv' := match p' with PSavedV _ _ => st_pendv s ++ [t] | _ => drop_tid t (st_pendv s) end in
-            let pendc' := match p' with PSavedC _ _ => st_pendc s ++ [t] | _ => drop_tid t (st_pendc s) end in
+            let del_commit := is_some (del_ev p eff) in
+            let pendv' := if is_some (saved_v p') then st_pendv s ++ [t] else drop_tid t (st_pendv s) in
+            let pendc' := if is_some (saved_c p') then st_pendc s ++ [t] else drop_tid t (st_pendc s) in
             let overlap' :=
               st_overlap s ||
-              match p' with
-              | PSavedV _ _ => negb (is_nil (st_pendv s))
-              | PSavedC _ _ => negb (is_nil (st_pendc s))
-              | _ => del_commit && negb (is_nil (st_pendc s))
-              end in
+              (if is_some (saved_v p') then negb (is_nil (st_pendv s))
+               else if is_some (saved_c p') then negb (is_nil (st_pendc s))
+               else del_commit && negb (is_nil (st_pendc s))) in
             let reordered' :=
               st_reordered s ||
-              match p with
-              | PSavedV _ _ => negb (head_is t (st_pendv s))
-              | PSavedC _ _ => negb (head_is t (st_pendc s))
-              | _ => del_commit && negb (is_nil (st_pendc s))
-              end in
+              (if is_pv p then negb (head_is t (st_pendv s))
+               else if is_pc p then negb (head_is t (st_pendc s))
+               else del_commit && negb (is_nil (st_pendc s))) in
             let vsubs' := match eff with
                           | EPubV e => map (fun u => mkVS (vs_tid u) (vs_ro u) (vs_at u) (vs_evs u ++ [e]) (vs_left u)) (st_vsubs s)
                           | ESubV ro => st_vsubs s ++ [mkVS t ro (w_v (st_w s)) [] (st_leftv s)]
@@ -357,20 +365,15 @@ Section Lts.
                           end in
             (* the turnstiles: a save takes the next number; a publication leaves with its number;
                a Delete takes the next number and leaves at once *)
-            let cntv' := match p' with PSavedV _ _ => S (st_cntv s) | _ => st_cntv s end in
-            let leftv' := match p with PSavedV _ _ => st_tkt s t | _ => st_leftv s end in
-            let cntc' := match p' with PSavedC _ _ => S (st_cntc s) | _ => if del_commit then S (st_cntc s) else st_cntc s end in
-            let leftc' := match p with PSavedC _ _ => st_tkt s t | _ => if del_commit then S (st_cntc s) else st_leftc s end in
-            let tkt' := match p' with
-                        | PSavedV _ _ => fun x => if Nat.eqb x t then S (st_cntv s) else st_tkt s x
-                        | PSavedC _ _ => fun x => if Nat.eqb x t then S (st_cntc s) else st_tkt s x
-                        | _ => st_tkt s
-                        end in
-            let logv' := match p' with PSavedV _ e => st_logv s ++ [e] | _ => st_logv s end in
-            let logc' := match p' with
-                         | PSavedC _ e => st_logc s ++ [e]
-                         | _ => match p, eff with PDel _ _, EPubC e => st_logc s ++ [e] | _, _ => st_logc s end
-                         end in
+            let cntv' := if is_some (saved_v p') then S (st_cntv s) else st_cntv s in
+            let leftv' := if is_pv p then st_tkt s t else st_leftv s in
+            let cntc' := if is_some (saved_c p') || del_commit then S (st_cntc s) else st_cntc s in
+            let leftc' := if is_pc p then st_tkt s t else if del_commit then S (st_cntc s) else st_leftc s in
+            let tkt' := if is_some (saved_v p') then (fun x => if Nat.eqb x t then S (st_cntv s) else st_tkt s x)
+                        else if is_some (saved_c p') then (fun x => if Nat.eqb x t then S (st_cntc s) else st_tkt s x)
+                        else st_tkt s in
+            let logv' := st_logv s ++ olist (saved_v p') in
+            let logc' := st_logc s ++ olist (saved_c p') ++ olist (del_ev p eff) in
             mkSt w' (set_nth t p' (st_pcs s)) vsubs' csubs' wit' (S (st_k s)) (st_stutter s)
                  pendv' pendc' overlap' reordered' cntv' leftv' cntc' leftc' tkt' logv' logc'
           else stutter s
@@ -441,7 +444,6 @@ Section Lts.
     filter (fun e => Nat.eqb (wit_tid e) t) wit.
 End Lts.
 
-Definition olist {A} (o : option A) : list A := match o with Some x => [x] | None => [] end.
 
 Arguments CSet {M writer rmask} msg o.
 Arguments CUpdate {M writer rmask} id msg o.
